@@ -1152,6 +1152,24 @@ func playTrace(root string, tr *ttrace) (out []emitted, st map[string]int, err e
 					ids = append(ids, g.ID)
 				}
 				ans = "groups " + joinU(ids)
+				// what a point query must read: exactly the live groups whose [start, end) holds t
+				liveWant := map[uint64]bool{}
+				for k := range w.rpi.ShardGroups {
+					g := &w.rpi.ShardGroups[k]
+					st, en := int64(g.StartTime.Sub(w.t0)), int64(g.EndTime.Sub(w.t0))
+					if !g.Deleted() && st <= o.t && o.t < en {
+						liveWant[g.ID] = true
+					}
+				}
+				for _, id := range ids {
+					if !liveWant[id] {
+						viol = append(viol, [2]string{"query-reads-wrong-group", fmt.Sprintf("point at %+d ns: group %d returned but it is deleted or does not contain the point", o.t, id)})
+					}
+					delete(liveWant, id)
+				}
+				for id := range liveWant {
+					viol = append(viol, [2]string{"query-misses-group", fmt.Sprintf("point at %+d ns: live group %d contains it but was not returned", o.t, id)})
+				}
 				// property: a point that every duration the store ever saw keeps inside the
 				// window is in a group a query still reads
 				var home *tgroup
